@@ -204,6 +204,8 @@ class Tr:
                     and not e.keywords and f.attr not in ('join', 'lower', 'isspace', 'upper', 'strip', 'count', 'append', 'pop') and e.args:
                 # a method (with arguments) of an object held in a local variable: primitive ".method"(object, args)
                 return '(ECall %s [%s])' % (cstring('.' + f.attr), '; '.join([self.expr(f.value)] + [self.expr(a) for a in e.args]))
+            if dotted(f) is not None and dotted(f).startswith('lkupTab.') and dotted(f) != 'lkupTab.lookUpCharge' and not e.keywords:
+                return '(ECall %s [%s])' % (cstring(dotted(f)), '; '.join(self.expr(a) for a in e.args))      # the residue table (tied by tables_tie): a primitive
             if dotted(f) == 'lkupTab.lookUpCharge' and len(e.args) == 1 and not e.keywords:
                 return '(ECall "lookUpCharge" [%s])' % self.expr(e.args[0])      # the residue table (tied by charge_tie)
             if dotted(f) in ('np.append', 'numpy.append') and len(e.args) == 2 and not e.keywords:
@@ -470,7 +472,7 @@ def literal_dicts(path):
 
 
 FDIV = {'g_LZW', 'g_LC', 'g_CWF'}
-QDIV = {'g_linHydro', 'g_charge_at_pH', 'g_SCD', 'g_sigma', 'g_deltaForm', 'g_delta', 'g_kappa', 'g_Fplus', 'g_Fminus', 'g_FCR', 'g_NCPR'}
+QDIV = {'g_meanHydropathy', 'g_uverskyHydropathy', 'g_meanWWHydropathy', 'g_molecular_weight', 'g_FPPII_chain', 'g_fraction_disorder_promoting', 'g_FER', 'g_linHydro', 'g_charge_at_pH', 'g_SCD', 'g_sigma', 'g_deltaForm', 'g_delta', 'g_kappa', 'g_Fplus', 'g_Fminus', 'g_FCR', 'g_NCPR'}
 
 FUNCS = [
     # (Coq name, file, class, function, prefixes under which the data module's names are visible there)
@@ -538,6 +540,13 @@ FUNCS = [
     ('g_charge_at_pH', 'localcider/backend/sequence.py', 'Sequence', 'charge_at_pH', ['data.aminoacids.', 'aminoacids.']),
     ('g_phosdist', 'localcider/backend/sequence.py', 'Sequence', 'calculateKappaDistOfPhosphoStates', []),
     ('g_SCD', 'localcider/backend/sequence.py', 'Sequence', 'sequence_charge_decoration', []),
+    ('g_meanHydropathy', 'localcider/backend/sequence.py', 'Sequence', 'meanHydropathy', ['data.aminoacids.', 'aminoacids.']),
+    ('g_uverskyHydropathy', 'localcider/backend/sequence.py', 'Sequence', 'uverskyHydropathy', ['data.aminoacids.', 'aminoacids.']),
+    ('g_meanWWHydropathy', 'localcider/backend/sequence.py', 'Sequence', 'meanWWHydropathy', ['data.aminoacids.', 'aminoacids.']),
+    ('g_molecular_weight', 'localcider/backend/sequence.py', 'Sequence', 'molecular_weight', ['data.aminoacids.', 'aminoacids.']),
+    ('g_FPPII_chain', 'localcider/backend/sequence.py', 'Sequence', 'FPPII_chain', ['data.aminoacids.', 'aminoacids.']),
+    ('g_fraction_disorder_promoting', 'localcider/backend/sequence.py', 'Sequence', 'fraction_disorder_promoting', ['data.aminoacids.', 'aminoacids.']),
+    ('g_FER', 'localcider/backend/sequence.py', 'Sequence', 'FER', ['data.aminoacids.', 'aminoacids.']),
     ('g_countPos', 'localcider/backend/sequence.py', 'Sequence', 'countPos', []),
     ('g_countNeg', 'localcider/backend/sequence.py', 'Sequence', 'countNeg', []),
     ('g_countNeut', 'localcider/backend/sequence.py', 'Sequence', 'countNeut', []),
